@@ -1,4 +1,5 @@
 """C01 — TCP tunnel byte-stream fidelity across every listener x connector pairing."""
+import os
 from .. import gen as G, refcodec as rc
 from ..core import Violation
 from ..gen import Scenario, op, send, tag_header, TAG_XOR
@@ -94,8 +95,8 @@ def leaf_connectors(ci):
     return [ci]
 
 
-def origin_ops(tmo):
-    return [op("serve_tagged", timeout_ms=tmo, chunk=0)]
+def origin_ops(tmo, pace=None):
+    return ([op("pace", chunk=pace[0], gap_ms=pace[1])] if pace else []) + [op("serve_tagged", timeout_ms=tmo, chunk=0)]
 
 
 def gen(rng, tier, i):
@@ -109,12 +110,24 @@ def gen(rng, tier, i):
             lk = "http"
         if ck in ("quic", "chain-quic"):
             ck = "direct"
-    splice = rng.random() < 0.12 and lk in ("http", "socks5", "socks5p", "socks4", "socks4a", "reverse") and ck in ("direct", "http", "socks5", "socks4", "chain-http")
-    bufsz = rng.choice([1, 2, 7, 512, 4096, 65536, 1 << 20]) if not splice else rng.choice([4096, 65536, 1 << 20])
+    splice = rng.random() < (0.12 if not os.environ.get("C01_FORCE_SPLICE") else 1.0) and lk in ("http", "socks5", "socks5p", "socks4", "socks4a", "reverse") and ck in ("direct", "http", "socks5", "socks4", "chain-http")
+    bufsz = rng.choice([1, 2, 7, 512, 4096, 65536, 1 << 20]) if not splice else rng.choice([1000, 4096, 65536, 1 << 20])
     sc.cfg["ioParams"] = {"bufferSize": bufsz, "useSplice": bool(splice)}
     if splice:
         sc.net["backend"] = "kernel"
         chaos_name = "kernel"
+        # back-pressure on the kernel lane: small SO_SNDBUF on every socket pair + slow readers, so that
+        # splice(2) from the pipe into the destination socket comes up short
+        backpressure = rng.random() < 0.6
+        sc.net["chaos"] = {}
+        if backpressure:
+            sc.net["chaos"]["capacity"] = rng.choice([2304, 4096, 16384, 65536])
+            chaos_name = "kernel-bp"
+        # splice(2) moving fewer bytes than asked for (what real TCP sockets do under back-pressure)
+        short = rng.choice([0, 30, 300])
+        if short:
+            sc.net["chaos"]["short_write"] = short
+            chaos_name += "-short"
     else:
         chaos_name, sc.net["chaos"] = G.pick_chaos(rng)
         tls_path = lk in ("https", "sockstls", "quic") or ck in ("https", "sockstls", "quic", "chain-quic", "chain-http", "lb")
@@ -139,6 +152,9 @@ def gen(rng, tier, i):
     ci = make_connector(sc, ck)
     sc.rule(ci["name"], 'request.listener == "%s"' % li["name"])
     leaves = leaf_connectors(ci)
+    pace = None
+    if splice and chaos_name.startswith("kernel-bp"):
+        pace = (rng.choice([512, 1500, 4096, 65536]), rng.choice([1, 1, 5, 20]))
     # every fake upstream serves any number of connections: handshake, then tagged origin behaviour
     direct_needed = False
     for leaf in leaves:
@@ -146,9 +162,9 @@ def gen(rng, tier, i):
             direct_needed = True
         else:
             key = "default_ops"
-            leaf["server"][key] = sc.upstream_handshake(leaf) + origin_ops(tmo)
+            leaf["server"][key] = sc.upstream_handshake(leaf) + origin_ops(tmo, pace)
     if direct_needed:
-        sc.add_origin(oaddr, default_ops=origin_ops(tmo), oid="origin")
+        sc.add_origin(oaddr, default_ops=origin_ops(tmo, pace), oid="origin")
     # a names-only upstream (socks4 cannot carry a name it cannot resolve... it can: 4a) is fine
     tunnels = []
     banner_mode = rng.random() < 0.15 and ck in ("direct", "http", "https", "socks5", "socks4", "sockstls", "socks5auth") and not splice
@@ -191,6 +207,10 @@ def gen(rng, tier, i):
             host = oip
         hs, proto = sc.client_handshake(li, host, oport, early=hdr if early else b"", variant=variant, creds=creds)
         chunk = rng.choice([0, 1, 7, 1000, 65536])
+        if pace and chunk in (1, 7) and c2s > 4000:
+            # on the kernel lane readiness is only noticed when the paused clock steps: tiny writes into tiny
+            # socket buffers move ~10 bytes per step, and a long stream would only measure that distortion
+            chunk = rng.choice([0, 1000, 65536])
         gap = rng.choice([0, 0, 0, 1, 5]) if c2s < 20000 else 0
         wops = []
         if not early:
@@ -198,6 +218,8 @@ def gen(rng, tier, i):
         wops.append(op("send", fill=[seed, c2s], chunk=chunk, gap_ms=gap, timeout_ms=tmo))
         wops.append(op("shutdown"))
         rops = [op("expect", fill=[seed ^ TAG_XOR, s2c], timeout_ms=tmo, label="s2c"), op("recv_eof", timeout_ms=tmo, label="s2c-eof")]
+        if pace and rng.random() < 0.7:
+            rops.insert(0, op("pace", chunk=pace[0], gap_ms=pace[1]))
         ops = hs + [op("par", w=wops, r=rops)]
         cid = "t%d" % t
         cchaos = None
